@@ -265,9 +265,11 @@ def check_resources(ctx, pid):
         if not mine(f):
             other.append(f)
         cls(f)
-    # C23: atree validation inside the runtime is OFF (as in production) so that a leaked or doubly
-    # referenced slab reaches the committed ledger and the monitor is what detects it
-    extra = ["health=1"] + (["atree=0", "healthfirst=1"] if health_only else ["atree=1"])
+    # atree validation inside the runtime is OFF (as in production) so that a leaked or doubly
+    # referenced slab reaches the committed ledger and the monitor is what detects it (and because the
+    # interpreter's in-transaction validation reports "slab overflows" on transient containers in some
+    # nested histories, see known/res.json "observations")
+    extra = ["health=1", "atree=0"] + (["healthfirst=1"] if health_only else [])
     s1, f1 = run_driver(ctx, binary, "replay", behs, "cover", extra)
     s2, f2 = run_driver(ctx, binary, "replay", sbehs, "sim", extra)
     for f in f1 + f2:
@@ -330,8 +332,8 @@ def check_C04(ctx):
         if not uses.get(need):
             raise Infra("behaviours never exercise %s" % need)
     cls = reporter(ctx, only=lambda f: not is_health(f))
-    s1, f1 = run_driver(ctx, binary, "replay", behs, "cover", ["health=0"])
-    s2, f2 = run_driver(ctx, binary, "replay", sbehs, "sim", ["health=0"])
+    s1, f1 = run_driver(ctx, binary, "replay", behs, "cover", ["health=0", "atree=0"])
+    s2, f2 = run_driver(ctx, binary, "replay", sbehs, "sim", ["health=0", "atree=0"])
     for f in f1 + f2:
         cls(f)
     ctx.add_sample({"kind": "transition-cover behaviour", "steps": [{k: v for k, v in s.items() if k != "pop"} for s in behs[len(behs) // 2]["steps"][:10]]})
